@@ -87,6 +87,21 @@ type xmlParser struct {
 	nsPos      int
 	attrs      []XmlAttribute
 	attrPos    int
+
+	// A token (or error) read ahead while collecting adjacent character data.
+	pending    xml.Token
+	pendingErr error
+	hasPending bool
+}
+
+func (x *xmlParser) nextToken() (xml.Token, error) {
+	if x.hasPending {
+		tok, err := x.pending, x.pendingErr
+		x.pending, x.pendingErr, x.hasPending = nil, nil, false
+		return tok, err
+	}
+
+	return x.xmlReader.Token()
 }
 
 func (x *xmlParser) Pull() (node.Node, bool, error) {
@@ -108,7 +123,7 @@ func (x *xmlParser) Pull() (node.Node, bool, error) {
 	x.attrPos = 0
 	x.namespaces = emptyXmlNamespaces
 	x.nsPos = 0
-	tok, err := x.xmlReader.Token()
+	tok, err := x.nextToken()
 
 	if err != nil {
 		return nil, false, err
@@ -123,8 +138,24 @@ func (x *xmlParser) Pull() (node.Node, bool, error) {
 			local: n.Name.Local,
 		}, false, nil
 	case xml.CharData:
+		// Adjacent character data (text next to a CDATA section) forms one
+		// text node.
+		value := string(n)
+
+		for {
+			next, err := x.xmlReader.Token()
+
+			if more, ok := next.(xml.CharData); ok && err == nil {
+				value += string(more)
+				continue
+			}
+
+			x.pending, x.pendingErr, x.hasPending = xml.CopyToken(next), err, true
+			break
+		}
+
 		return XmlCharData{
-			value: (string)(n),
+			value: value,
 		}, false, nil
 	case xml.Comment:
 		return XmlComment{
